@@ -45,6 +45,18 @@ type matryerRun struct {
 	viol    *Violation
 	resGen  *Gen
 	hasRes  bool
+	// held: every list a Calls() read returned, kept like a caller would keep it, with what it
+	// said when it was returned
+	held []heldList
+	// shadow: a second instance of the same mock type that is used alongside (never judged itself)
+	shadow reflect.Value
+	tags   map[string]bool
+}
+
+type heldList struct {
+	method string
+	list   reflect.Value
+	fps    []string
 }
 
 func (r *matryerRun) fail(v *Violation) {
@@ -140,6 +152,11 @@ func (r *matryerRun) exec(task int, oi int, op Op) {
 		}
 		hidx := len(r.hist)
 		r.hist = append(r.hist, h)
+		if r.shadow.IsValid() && op.Seed&2 != 0 {
+			sg := &Gen{R: NewRng(op.Seed ^ 0x5ad0), Prefix: fmt.Sprintf("sh%d.%d", task, oi), NilRate: r.cs.NilRate}
+			sargs := genArgs(m, sg, -1)
+			safeCall(func() { r.shadow.MethodByName(m.Name).Call(sargs.Vals) })
+		}
 		pv, panicked := safeCall(func() { outs = r.mv.MethodByName(m.Name).Call(args.Vals) })
 		r.hist[hidx].rt = simsync.Tick()
 		invs := r.log[task+1][before:]
@@ -208,6 +225,7 @@ func (r *matryerRun) exec(task int, oi int, op Op) {
 			return
 		}
 		h.list = r.recordsOf(m, out[0])
+		r.held = append(r.held, heldList{m.Name, out[0], h.list})
 		if h.list == nil {
 			h.list = []string{}
 		}
@@ -285,6 +303,24 @@ func RunMatryer(reg *Registration, cs *Case) (*Violation, RunStats) {
 	r.resGen = &Gen{R: NewRng(cs.Seed ^ 0xfeed), Prefix: "res", NilRate: cs.NilRate}
 	mock := reg.New(nil)
 	r.mv = reflect.ValueOf(mock)
+	r.tags = map[string]bool{}
+	if cs.Seed&1 == 1 {
+		// two instances of one mock type are independent of each other
+		r.shadow = reflect.ValueOf(reg.New(nil))
+		for i := range r.methods {
+			if f := r.shadow.Elem().FieldByName(r.methods[i].Name + "Func"); f.IsValid() {
+				ft := f.Type()
+				f.Set(reflect.MakeFunc(ft, func(in []reflect.Value) []reflect.Value {
+					out := make([]reflect.Value, ft.NumOut())
+					for k := range out {
+						out[k] = reflect.Zero(ft.Out(k))
+					}
+					return out
+				}))
+			}
+		}
+		r.tags["fault:second-instance-of-the-same-mock"] = true
+	}
 	for i := range r.methods {
 		mode := cs.Modes[r.methods[i].Name]
 		if mode == "" {
@@ -345,6 +381,9 @@ func RunMatryer(reg *Registration, cs *Case) (*Violation, RunStats) {
 			}
 		}
 	}
+	for k := range r.tags {
+		fired[k] = true
+	}
 	for k := range fired {
 		st.Tags = append(st.Tags, k)
 	}
@@ -366,6 +405,12 @@ func RunMatryer(reg *Registration, cs *Case) (*Violation, RunStats) {
 	}
 	if r.viol != nil {
 		return r.viol, st
+	}
+	// a list handed out by Calls() is the caller's: nothing that happens later changes it
+	for _, h := range r.held {
+		if now := r.recordsOf(findMethod(r.methods, h.method), h.list); !eqStrs(now, h.fps) {
+			return &Violation{"calls-list-changed-after-it-was-returned", site, fmt.Sprintf("variadic=%v", findMethod(r.methods, h.method).Variadic), "the records returned by " + h.method + "Calls() stay what they were: " + short(strings.Join(h.fps, " | "), 300), short(strings.Join(now, " | "), 300)}, st
+		}
 	}
 	// final lists at quiescence (outside the simulation)
 	final := map[string][]string{}
